@@ -283,10 +283,10 @@ example :
     inItems {} [] none toks =
       [.blk, .ws, .word, .ws, .word, .ws, .inl, .ws, .word, .ws, .inl, .ws, .word, .ws, .objS, .ws, .word, .ws, .blk,
        .ws, .blk, .raw, .blk,
-       .blk, .word, .inl, .word, .inl, .ws, .word, .ws, .objS, .word, .ws, .objE, .objS, .ws, .word, .blk] ∧
+       .blk, .word, .objS, .word, .objE, .ws, .word, .ws, .objS, .word, .ws, .objE, .objS, .ws, .word, .blk] ∧
     outItems {} [] none toks =
       [.blk, .word, .ws, .word, .ws, .inl, .word, .ws, .inl, .word, .ws, .objS, .ws, .word, .blk, .blk, .raw, .blk,
-       .blk, .word, .inl, .word, .inl, .ws, .word, .ws, .objS, .word, .ws, .objE, .objS, .ws, .word, .blk] := by
+       .blk, .word, .objS, .word, .objE, .ws, .word, .ws, .objS, .word, .ws, .objE, .objS, .ws, .word, .blk] := by
   decide +kernel
 
 end Whitespace
@@ -295,22 +295,15 @@ end Whitespace
 section OptionalTags
 open Verif.Model.Html Verif.Spec.HtmlOptional Verif.Spec.HtmlKnownDoc Verif.Proofs.HtmlOptional
 
-/-- full statement: whenever the model omits an end tag in a context that the content models allow, the standard
-    allows the omission there -/
-def omit_allowed_full : Prop :=
-  ∀ (o : Opts) (e : List Char) (rest : List HTok), omitEndTag o e rest = true →
-    conformingAfter e (nextOf rest) = true → mayOmitEnd e (nextOf rest) = true
-
-/-- **omit_allowed_partial.**  If the model omits the end tag of `e` (for any options and any following tokens),
+/-- **omit_allowed** (full).  If the model omits the end tag of `e` — for any options and any following tokens —
     and what follows is something the content models allow after `e`, then the HTML standard's optional-tag rule for
-    `e` allows the omission before that token — except in the one guarded situation `trigEndOmit` (what is left of
-    K-C03-5: `</optgroup>` before a script-supporting element).  For `p` this is a theorem about the look-ahead and
-    the regenerated `omitPTag`/`keepPTag` columns of the whole table (`p_tables_ok`: only known, non-custom end tags
-    outside the standard's keep list); for `li dt dd rb rt rtc rp option thead tbody tfoot tr td th` about
-    `endTagOmittable`/`closesBefore` (`omittable_finite`). -/
-theorem omit_allowed_partial (o : Opts) (e : List Char) (rest : List HTok)
-    (h : omitEndTag o e rest = true) (hc : conformingAfter e (nextOf rest) = true)
-    (g : trigEndOmit e rest = false) :
+    `e` allows the omission before that token.  For `p` this is a theorem about the look-ahead and the regenerated
+    `omitPTag`/`keepPTag` columns of the whole table (`p_tables_ok`: only known, non-custom end tags outside the
+    standard's keep list); for `li dt dd rb rt rtc rp option thead tbody tfoot tr td th` about
+    `endTagOmittable`/`closesBefore` (`omittable_finite`); for `optgroup` about its look-ahead (end of the select,
+    another end tag, or `<optgroup>`). -/
+theorem omit_allowed (o : Opts) (e : List Char) (rest : List HTok)
+    (h : omitEndTag o e rest = true) (hc : conformingAfter e (nextOf rest) = true) :
     mayOmitEnd e (nextOf rest) = true := by
   simp only [omitEndTag, Bool.and_eq_true, Bool.or_eq_true] at h
   rcases h.2 with (ha | hp) | hog
@@ -320,25 +313,12 @@ theorem omit_allowed_partial (o : Opts) (e : List Char) (rest : List HTok)
     exact omit_p_allowed rest hp.2
   · have he := hashIs_eq' hog.1
     subst he
-    cases hm : mayOmitEnd "optgroup".toList (nextOf rest) with
-    | true => rfl
-    | false =>
-      exfalso
-      unfold trigEndOmit at g
-      rw [hc, hm] at g
-      revert g; decide
+    exact omit_optgroup_allowed rest hog.2 hc
 
-/-- **omit_allowed_counterexample** (K-C03-5, what is left): `<optgroup>…</optgroup><script>` — script-supporting
-    elements may follow an `optgroup`, the model omits `</optgroup>` unless an `option` follows, the standard allows
-    that only before `optgroup`/`hr` or at the end of the `select` -/
-theorem omit_allowed_counterexample : ¬ omit_allowed_full := by
-  intro h
-  exact absurd (h {} "optgroup".toList [.startTag "script".toList []] (by decide +kernel) (by decide +kernel))
-    (by decide +kernel)
-
-/-- non-vacuity and regressions (K-C03-4, K-C03-5): `</p>` omitted before `<div>` but kept before `</my-el>`,
+/-- non-vacuity and regressions (K-C03-4, -5, -14): `</p>` omitted before `<div>` but kept before `</my-el>`,
     `</slot>`; `</li>` omitted before `<li>` but kept before `<script>`; `</thead>` kept before `<tr>`; `</rt>` kept
-    before text; `</td>` omitted at the end of the row -/
+    before text; `</td>` omitted at the end of the row; `</optgroup>` kept before `<script>`, omitted before
+    `<optgroup>` -/
 example :
     omitEndTag {} "p".toList [.text " ".toList false, .startTag "div".toList []] = true ∧
     omitEndTag {} "p".toList [.endTag "my-el".toList "</my-el>".toList] = false ∧
@@ -348,6 +328,8 @@ example :
     omitEndTag {} "thead".toList [.text "\n".toList false, .startTag "tr".toList []] = false ∧
     omitEndTag {} "rt".toList [.text "c".toList false] = false ∧
     omitEndTag {} "td".toList [.endTag "tr".toList "</tr>".toList] = true ∧
+    omitEndTag {} "optgroup".toList [.startTag "script".toList []] = false ∧
+    omitEndTag {} "optgroup".toList [.text " ".toList false, .startTag "optgroup".toList []] = true ∧
     conformingAfter "td".toList (nextOf [.endTag "tr".toList "</tr>".toList]) = true := by
   decide +kernel
 
@@ -429,6 +411,21 @@ theorem doc_tags_allowed (o : Opts) (name : List Char) (prev : Next) (rest : Lis
 example : dropsStart {} "body".toList [.text "\n".toList false, .startTag "script".toList []] = false ∧
     dropsStart {} "body".toList [.startTag "p".toList []] = true := by decide +kernel
 
+/-- regression for /repo 44fae7b: with KeepEndTags `</body>` stays (and closes the bookkeeping entry) exactly when
+    a written `<body …>` is open; without a written start tag, or without the option, it is dropped as before; a
+    written `<body class=a>` is recorded only under KeepEndTags -/
+example :
+    (endStep { keepEndTags := true } { docOpen := ["body".toList] } "body".toList "</body>".toList []).2 =
+      "</body>".toList ∧
+    (endStep { keepEndTags := true } { docOpen := ["body".toList] } "body".toList "</body>".toList []).1.docOpen = [] ∧
+    (endStep { keepEndTags := true } {} "body".toList "</body>".toList []).2 = [] ∧
+    (endStep {} { docOpen := ["body".toList] } "body".toList "</body>".toList []).2 = [] ∧
+    (endStep { keepEndTags := true } { docOpen := ["html".toList] } "body".toList "</body>".toList []).2 = [] ∧
+    (startPost { keepEndTags := true } {} "body".toList [] none).docOpen = ["body".toList] ∧
+    (startPost { keepEndTags := true, keepDocumentTags := true } {} "body".toList [] none).docOpen = [] ∧
+    (startPost { keepEndTags := true, keepDocumentTags := true } {} "colgroup".toList [] none).docOpen = ["colgroup".toList] ∧
+    (startPost {} {} "body".toList [] none).docOpen = [] := by decide +kernel
+
 end OptionalTags
 
 /-! ## the tag classes of html/table.go against the default rendering -/
@@ -436,11 +433,12 @@ end OptionalTags
 /-- **tag_classes_ok** (regression for K-C03-9, on the regenerated table): `noscript` and `style` are not
     block-like (hidden / inline: whitespace next to them is significant for the surrounding text); the replaced
     elements `embed` and `audio` and the non-rendered `datalist` are object-like; `marquee` (inline-block) is
-    object-like. -/
+    object-like; so are the non-rendered `template` and `noscript` (K-C03-16). -/
 theorem tag_classes_ok :
     Verif.Model.Html.isBlock "noscript".toList = false ∧ Verif.Model.Html.isBlock "style".toList = false ∧
     Verif.Model.Html.isObject "embed".toList = true ∧ Verif.Model.Html.isObject "audio".toList = true ∧
-    Verif.Model.Html.isObject "datalist".toList = true ∧ Verif.Model.Html.isObject "marquee".toList = true := by
+    Verif.Model.Html.isObject "datalist".toList = true ∧ Verif.Model.Html.isObject "marquee".toList = true ∧
+    Verif.Model.Html.isObject "template".toList = true ∧ Verif.Model.Html.isObject "noscript".toList = true := by
   decide +kernel
 
 end Verif.Props.C03
